@@ -13,7 +13,7 @@ TB_COMMON = [KERNEL, 'axioms: propext, Classical.choice, Quot.sound only (audite
 
 # theorem registry: property -> [(module, [theorem names])]
 THEOREMS = {
-    'C11': [('ChessVerif.Props.C11', ['Chess.Props.C11_slider', 'Chess.Props.C11_leapers', 'Chess.Props.C11_lines', 'Chess.Props.C11_pawn']), ('ChessVerif.Props.C11Mirror', ['Chess.Props.C11_slider_mirror'])],
+    'C11': [('ChessVerif.Props.C11', ['Chess.Props.C11_slider', 'Chess.Props.C11_leapers', 'Chess.Props.C11_lines', 'Chess.Props.C11_pawn']), ('ChessVerif.Props.C11Mirror', ['Chess.Props.C11_slider_mirror', 'Chess.Props.C11_attacked_squares_mirror'])],
     'C01': [('ChessVerif.Props.C01', ['Chess.Props.C01_movegen_exact', 'Chess.Props.C01_exact', 'Chess.Props.C01_perft', 'Chess.Props.C01_reachable', 'Chess.Props.C01_exact_noep', 'Chess.Props.C01_unpinned_legal', 'Chess.Props.C01_no_duplicates', 'Chess.Props.C01_move_shape', 'Chess.Props.C01_king_moves_exact', 'Chess.Props.C01_castling_exact', 'Chess.Props.C01_castling_emitted',
                                      'Chess.Props.C01_forbidden_squares', 'Chess.Props.C01_forbidden_nocheck', 'Chess.Props.C01_in_check_test',
                                      'Chess.Props.C01_leaper_geometry_partial', 'Chess.Props.C01_slider_geometry_partial', 'Chess.Props.C01_castling_paths_partial',
